@@ -7,6 +7,7 @@
 package jsonschema
 
 import (
+	"encoding/json"
 	"errors"
 	"fmt"
 	"log/slog"
@@ -420,6 +421,8 @@ func init() {
 	}
 	initialSchemaMap[reflect.TypeFor[big.Rat]()] = ss
 	initialSchemaMap[reflect.TypeFor[big.Float]()] = ss
+	// A json.Number is a string in Go, but encoding/json reads and writes it as a number.
+	initialSchemaMap[reflect.TypeFor[json.Number]()] = &Schema{Type: "number"}
 }
 
 // Disallow jsonschema tag values beginning "WORD=", for future expansion.
